@@ -100,19 +100,15 @@ func concCase(rt *rapid.T, prop string, rec *vt.Rec) {
 				}
 				_, err := s.update(i, rep, uint64(r), i%2 == 0, i%3 == 0)
 				resCh <- concResult{s.agents[i].id.name, "update", err}
-			}()
-			if i >= nHosts && prop == "C10" {
-				wg.Add(1)
-				go func() {
-					defer wg.Done()
-					<-startCh
+				if i >= nHosts && prop == "C10" {
+					// an agent is sequential: its peer request follows its keep-alive
 					_, err := s.peer(i, 1, "")
 					if err != nil && classifyErr(err).Kind == "nohosts" {
 						err = nil // every host is already a peer of this client
 					}
 					resCh <- concResult{s.agents[i].id.name, "peer", err}
-				}()
-			}
+				}
+			}()
 		}
 		// a wallet is one identity: its own requests are sequential (one goroutine per wallet)
 		for w := 0; w < 2; w++ {
